@@ -104,9 +104,15 @@ pub fn read_facts_and_rules(file_name: &str) -> Result<Vec<String>, String> {
         Ok(lines) => {
 
             let mut line_number = 1;
+            // Depth of brackets which are still open at the end of a line.
+            let mut round_depth  = 0;
+            let mut square_depth = 0;
             for line in lines {
                 if let Ok(line) = line {
-                    let line = strip_comments(&line);
+                    let (line, round, square) =
+                        strip_comments_at_depth(&line, round_depth, square_depth);
+                    round_depth  = round;
+                    square_depth = square;
                     if line.len() > 0 {
                         match check_last_char(&line, line_number) {
                             Some(msg) => { return Err(msg); },
@@ -173,11 +179,23 @@ where P: AsRef<Path>, {
 /// * `original line`
 /// # Return
 /// * `line without comments`
+#[cfg(test)]  // The file reader uses strip_comments_at_depth().
 fn strip_comments(line: &str) -> String {
+    let (stripped, _, _) = strip_comments_at_depth(line, 0, 0);
+    return stripped;
+}  // strip_comments
+
+// Strips comments from a line of a rule which may have begun on a
+// previous line. The depths of round and square brackets at the start
+// of the line are given; the depths at the end of the line are returned,
+// for the next line. A comment delimiter starts a comment only if it is
+// outside all brackets, also those which were opened on previous lines.
+fn strip_comments_at_depth(line: &str, round: i32, square: i32)
+                           -> (String, i32, i32) {
 
     let mut previous = 'x';
-    let mut round_depth  = 0;
-    let mut square_depth = 0;
+    let mut round_depth  = round;
+    let mut square_depth = square;
 
     let mut index = 0;
     let mut has_comment = false;
@@ -203,13 +221,15 @@ fn strip_comments(line: &str) -> String {
     }
 
     if has_comment {
-        return chars_to_string!(chrs[0..index]).trim().to_string();
+        return (chars_to_string!(chrs[0..index]).trim().to_string(),
+                round_depth, square_depth);
     }
     else {
-        return chars_to_string!(chrs).trim().to_string();
+        return (chars_to_string!(chrs).trim().to_string(),
+                round_depth, square_depth);
     }
 
-}  // strip_comments
+}  // strip_comments_at_depth
 
 /// Divides a text string into a list of facts and rules.
 ///
